@@ -10,6 +10,7 @@ import (
 	"bytes"
 	"encoding/binary"
 	"io"
+	"math"
 	"os"
 	"path"
 	"strings"
@@ -46,8 +47,10 @@ func (h *NFSProcedureHandler) handleCreate(body io.Reader, reply *RPCReply, auth
 	newUID := authCtx.EffectiveUID
 	newGID := authCtx.EffectiveGID
 	var isExclusive bool
+	var sattr sattr3
 	if createHow == 0 || createHow == 1 {
-		sattr, err := decodeSattr3(body)
+		var err error
+		sattr, err = decodeSattr3(body)
 		if err != nil {
 			return nfsErrorWithWcc(reply, GARBAGE_ARGS), nil
 		}
@@ -89,6 +92,58 @@ func (h *NFSProcedureHandler) handleCreate(body io.Reader, reply *RPCReply, auth
 		Mode: os.FileMode(mode),
 		Uid:  newUID,
 		Gid:  newGID,
+	}
+
+	// RFC 1813 3.3.8: an existing object is never truncated by CREATE.
+	// GUARDED fails with EXIST; UNCHECKED and EXCLUSIVE return an existing regular
+	// file as it is (UNCHECKED applies size only if the client set it).
+	lookupPath := path.Join(node.path, name)
+	if existing, statErr := h.server.handler.fs.Lstat(lookupPath); statErr == nil {
+		// (EXCLUSIVE keeps the simplified idempotent behaviour: the verifier is not compared)
+		reuse := existing.Mode().IsRegular() && (createHow == 0 || isExclusive)
+		if !reuse {
+			var buf bytes.Buffer
+			xdrEncodeUint32(&buf, NFSERR_EXIST)
+			if wccErr := encodeWccData(&buf, dirPreAttrs, dirPreAttrs); wccErr != nil {
+				return nfsErrorWithWcc(reply, NFSERR_EXIST), nil
+			}
+			reply.Data = buf.Bytes()
+			return reply, nil
+		}
+		if createHow == 0 && sattr.SetSize {
+			if sattr.Size > uint64(math.MaxInt64) {
+				return nfsErrorWithWcc(reply, NFSERR_INVAL), nil
+			}
+			if err := h.server.handler.fs.Truncate(lookupPath, int64(sattr.Size)); err != nil {
+				return nfsErrorWithWcc(reply, mapError(err)), nil
+			}
+		}
+		h.server.handler.attrCache.Invalidate(lookupPath)
+		existingNode, lookupErr := h.server.handler.Lookup(lookupPath)
+		if lookupErr != nil {
+			return nfsErrorWithWcc(reply, mapError(lookupErr)), nil
+		}
+		dirPostAttrs, _ := h.server.handler.GetAttr(node)
+		if dirPostAttrs == nil {
+			dirPostAttrs = dirPreAttrs
+		}
+		handle := h.server.handler.fileMap.Allocate(existingNode)
+		existingNode.mu.RLock()
+		existingAttrsCopy := *existingNode.attrs
+		existingNode.mu.RUnlock()
+		var buf bytes.Buffer
+		xdrEncodeUint32(&buf, NFS_OK)
+		xdrEncodeUint32(&buf, 1)
+		xdrEncodeFileHandle(&buf, handle)
+		xdrEncodeUint32(&buf, 1)
+		if err := encodeFileAttributes(&buf, &existingAttrsCopy); err != nil {
+			return nfsErrorWithWcc(reply, NFSERR_IO), nil
+		}
+		if err := encodeWccData(&buf, dirPreAttrs, dirPostAttrs); err != nil {
+			return nfsErrorWithWcc(reply, NFSERR_IO), nil
+		}
+		reply.Data = buf.Bytes()
+		return reply, nil
 	}
 
 	newNode, err := h.server.handler.Create(node, name, attrs)
